@@ -25,7 +25,7 @@ Separate Extraction
   Codegen.client_path Codegen.server_path Codegen.service_name Codegen.server_select
   Codegen.status_into_response Codegen.status_from_response Codegen.typed_call
   Codegen.server_unary Codegen.client_unary
-  ActivePeers.step ActivePeers.run ActivePeers.peers ActivePeers.tie_break ActivePeers.empty
+  ActivePeers.step ActivePeers.run ActivePeers.peers ActivePeers.tie_break ActivePeers.empty ActivePeers.find
   MutualDial.reach MutualDial.do_step MutualDial.enabled MutualDial.terminal MutualDial.init
   MutualDial.all_labels MutualDial.survivor MutualDial.converged
   Dialer.check Dialer.b_update Dialer.backoff_duration Dialer.first_tick_after
